@@ -11,7 +11,7 @@ CLAIMED = {
    technique="deterministic simulation: seeded builder-call histories vs reference model under a seeded hash-order scheduler"),
  "C03": dict(level="exploration", ref="DESIGN §5 C03",
    text="The prover node is byzantine: it discards the honest runner and builds a witness assignment that obeys only the emitted operation list (no runner side checks, free MulAdd product slot, free hint outputs). For seeded programs with perturbed inputs the ops-only evaluator decides the emitted relations and the reference interpreter decides the source program on that same assignment; a disagreement is confirmed end to end by proving the forged trace with the real prover and having the real verifier accept it.",
-   note="One candidate assignment per input (search, not a decision procedure for OpsSat). Only confirmed counter-examples are reported. Trusts ref_eval and sim/src/opsat.rs.",
+   note="One candidate assignment per input (search, not a decision procedure for OpsSat). Reported: counter-examples confirmed by an accepted forged proof, and counter-examples in circuits that key generation refuses (no proof exists either way; the property is stated on the operation list alone). The product slot of a fused MulAdd that nothing else mentions is not compared. Trusts ref_eval and sim/src/opsat.rs.",
    technique="deterministic simulation with a byzantine prover: forged witness that satisfies only the emitted ops, real prove + verify"),
  "C09": dict(level="exploration", ref="DESIGN §5 C09",
    text="Invariant monitor attached to the compiler node: for every circuit compiled in seeded runs (every connect-aliasing pattern between constants, public/private inputs, hint outputs and ALU outputs; lane/packing swarm; seeded hash order) a bus accountant recomputes creators and readers per witness slot from the final preprocessed columns and checks one creator, balanced multiplicities and no floating operand; cross-checked against the real LogUp bus (an honest proof of a circuit the accountant calls balanced must verify).",
@@ -31,11 +31,11 @@ CLAIMED = {
    technique="deterministic simulation with message-fault enumeration between prover and two verifier nodes"),
  "C04": dict(level="fault_enumeration", ref="DESIGN §5 C04",
    text="Byzantine prover at matrix depth through hook H2: after an honest run every cell of every active row (and one padding row) of every primitive table is altered, or an operand is altered and the row re-solved locally, or rows are swapped, or a constant is substituted and propagated; the real prover commits and proves the forged matrices and the commitment-binding verifier decides. Ground truth (operation relations over the extension field, constants, agreement of all bus participants) is computed per case; accepted and invalid is a violation. Fault-free control arm first.",
-   note="Primitive tables (Const, Public, ALU incl. single-step and packed HornerAcc rows decoded from the ALU preprocessed matrix); non-primitive tables: single-cell faults on the committed Poseidon2 / recompose tables of Merkle-opening circuits (arity 2, arity 4, raw add_poseidon2_perm paths) with verdicts expected from the documented row layout, plus direction-input flips and path transplants. Eight universes (KB/BB D4, BB binomial D5, KB quintic D5, KB D8, KB D1, Goldilocks D2). Horner-specific forges: chain restarted from a forged accumulator, packed row out forged with intermediates solved backwards. Release profile so that p3's debug constraint checks do not pre-empt the prover. Known findings (unconstrained Const values; arity-2 Merkle rows tied to nothing but the root) listed in known_findings.json.",
+   note="Primitive tables (Const, Public, ALU incl. single-step and packed HornerAcc rows decoded from the ALU preprocessed matrix); non-primitive tables: single-cell faults on the committed Poseidon2 / recompose tables of Merkle-opening circuits (arity 2, arity 4, raw add_poseidon2_perm paths, the compact D=1 layout inside the quintic circuit, arity 2 over the Poseidon1 table) with verdicts expected from the documented row layout, plus direction-input flips, direction-bit flips with re-summed index accumulators and path transplants; sponge arm: a faulty witness generator (hook H3) changes a not-witness-fed limb of an add_hash_slice row, re-executes, publishes the resulting digest and proves it (extension-field layout KB/BB D4 and the compact D=1 layout). Eight universes (KB/BB D4, BB binomial D5, KB quintic D5, KB D8, KB D1, Goldilocks D2). Horner-specific forges: chain restarted from a forged accumulator, packed row out forged with intermediates solved backwards. Release profile so that p3's debug constraint checks do not pre-empt the prover. Known findings (unconstrained Const values; arity-2 Merkle rows tied to nothing but the root) listed in known_findings.json.",
    technique="deterministic simulation with a byzantine prover: exhaustive single-cell faults on committed matrices, real prove + verify, computed ground truth"),
  "C11": dict(level="fault_enumeration", ref="DESIGN §5 C11",
    text="Table-local half of C04 at the constraint level: the same cell faults on matrices captured from the real prover are evaluated with p3's DebugConstraintBuilder against each table's AIR (no proof), and compared with an independent row-relation evaluator that multiplies in the real extension field; relation fails and constraints vanish, or an honest row fails constraints, is a violation.",
-   note="Const/Public/ALU (add, mul, bool, mul_add, Horner single-step and packed arities 2..K) tables in seven universes (binomial D2/D4/D5/D8, quintic trinomial, base field) with lane and Horner-K swarm; Poseidon2 / recompose table rows are covered end to end (prove + verify) by the row-level faults of the NPO arm on a thin sample of runs. BoolCheck's out = a tie is a bus matter and checked end to end in C04.",
+   note="Const/Public/ALU (add, mul, bool, mul_add, Horner single-step and packed arities 2..K) tables in seven universes (binomial D2/D4/D5/D8, quintic trinomial, base field) with lane and Horner-K swarm; Poseidon2 / Poseidon1 / recompose table rows are covered end to end (prove + verify) by the row-level faults of the NPO arm (five families, rotating) on a thin sample of runs. BoolCheck's out = a tie is a bus matter and checked end to end in C04.",
    technique="deterministic simulation: exhaustive cell-fault enumeration on prover matrices with a constraint-level observer and relation oracle"),
  "C07": dict(level="fault_enumeration", ref="DESIGN §5 C07",
    text="Same prover -> transport -> {native, in-circuit} simulation as C01 with the fault space focused on what FRI consumes (commitments, claimed evaluations, the whole opening proof incl. per-step log_arity) and all five fault kinds on every such leaf, over a FRI-oriented shape swarm: mixed matrix heights down to single-row tables, arity schedules up to 2^4 incl. mixed, blow-up 1-3, final polynomial length 1-4, 1-3 queries, PoW bits 0-8, cap height 0-2.",
@@ -43,7 +43,7 @@ CLAIMED = {
    technique="deterministic simulation with message-fault enumeration focused on the FRI opening proof, parameter swarm"),
  "C08": dict(level="fault_enumeration", ref="DESIGN §5 C08",
    text="MMCS-only pair: native MerkleTreeMmcs commit/open/verify versus in-circuit verify_batch_circuit on seeded matrix batches (equal and mixed heights, widths not aligned to the rate, cap height 0-2); honest openings at every index, then every opened value, sibling digest word, index bit and cap entry word altered one at a time; verdicts must agree.",
-   note="Arity-2 trees over KoalaBear/BabyBear width-16 Poseidon2 and arity-4 trees over KoalaBear width-32 Poseidon2 (verify_batch_circuit_arity4); salted MerkleTreeHidingMmcs binary trees over KoalaBear (every salt element faulted); base-field leaves (extension-field leaves are exercised through the FRI commit-phase openings of C01/C07). Known finding (arity-4 cap layer ambiguity) in known_findings.json.",
+   note="Arity-2 trees over KoalaBear/BabyBear width-16 Poseidon2 and arity-4 trees over KoalaBear width-32 Poseidon2 (verify_batch_circuit_arity4); salted MerkleTreeHidingMmcs binary trees over KoalaBear (every salt element faulted); arity-2 trees over the KoalaBear width-16 Poseidon1 permutation (Poseidon1 table); base-field leaves (extension-field leaves are exercised through the FRI commit-phase openings of C01/C07). Known finding (arity-4 cap layer ambiguity) in known_findings.json.",
    technique="deterministic simulation with exhaustive single-fault enumeration on Merkle openings, native verifier as oracle"),
  "C15": dict(level="fault_enumeration", ref="DESIGN §5 C15",
    text="Short, torn and lost parts of a message: every sequence node of the serialized proof is shortened, lengthened, emptied or made ragged, every optional part is flipped, every usize leaf is set to +1, -1, 0 and 2^62; each mutant that still deserializes is handed to the verification-circuit builder in a crash-isolated, memory-limited worker process; a panic or abort is a violation, and if the builder returns Ok the built circuit is run on the mutant and must agree with the native verdict on the mutant (a circuit that checks less than the native verifier is a violation).",
@@ -58,7 +58,7 @@ CLAIMED = {
    note="KoalaBear D=4 and Goldilocks D=2 (one history in four) with the real FriRecursionBackend for the respective extension degree; FriRecursionConfig wrapper copied from the repository's examples. Known findings (stale caches) in known_findings.json.",
    technique="deterministic simulation: seeded call histories with stale-state faults against an uncached reference twin"),
  "C19": dict(level="fault_enumeration", ref="DESIGN §5 C19",
-   text="Input-fault plans (withheld, short, long, duplicated, conflicting inputs and private data) on circuits whose inputs are consumed by ALU ops, hints, the recompose table, Poseidon2 permutations and Merkle checks, executed by two builds of the same harness that differ only in debug-assertions, each in a crash-isolated worker; outcome streams (ok + trace digest, error class, panic, abort) must be identical and faults that must fail must not report success.",
+   text="Input-fault plans (withheld, short, long, duplicated, conflicting inputs and private data) on circuits whose inputs are consumed by ALU ops, hints, the recompose table, Poseidon2 permutations and Merkle checks, executed by two builds of the same harness that differ only in debug-assertions, each in a crash-isolated worker; outcome streams (ok + trace digest, error class, panic, abort) must be identical, faults that must fail must not report success, and a run that succeeds although inputs were withheld must reproduce the fault-free control's traces.",
    note="No Miri arm: agreement of the two builds is evidence, not proof, of absence of undefined behaviour on the unchecked path.",
    technique="deterministic simulation with input-fault enumeration on twin build configurations, crash-isolated workers"),
  "C05": dict(level="exploration", ref="DESIGN §5 C05",
